@@ -96,6 +96,23 @@ def check(ctx):
         IDPAIRS = idps[0].data["result"]
 
         coindexing(ctx, res, member, err, dids, IDPAIRS, "C02.2")
+        # necessary for every pairing mode: each value depends on *both*
+        # components (i and j) of its own id pair
+        uses = {0: False, 1: False}
+        for x in err.walk():
+            if x.op == "sub" and x.args[0].op == "elem" and \
+                    x.args[0].args[0] is IDPAIRS and tm.is_const(x.args[1]) \
+                    and x.args[1].args[1] in (0, 1):
+                uses[x.args[1].args[1]] = True
+        ok = uses[0] and uses[1]
+        ctx.ob("C02.3", res.func, ok,
+               f"RPE[{member}]: every value is computed from both ends "
+               f"(i and j) of its own id pair" if ok else
+               f"RPE[{member}]: the values do not depend on the "
+               f"{'start' if not uses[0] else 'end'} index of each id pair "
+               f"(e.g. differences along the chain of end indices): wrong "
+               f"for non-consecutive (all-pairs) selections",
+               key=f"C02.3:{member}:both-ends")
 
         # ------------------------------------------------- C02.3/4/6 values
         if family in ("pointdist", "ratio"):
